@@ -20,49 +20,49 @@ Inductive order_class :=
 Definition site := (string * string * string)%type.
 
 Definition classified : list (site * list order_class) :=
-  [ (("air/src/layout.rs", "detect_self_references", "structs"), [NotBytecode]);
-    (("air/src/layout.rs", "topological_order", "deps"), [NotBytecode]);
-    (("air/src/layout.rs", "topological_order", "structs"), [NotBytecode]);
-    (("air/src/mono.rs", "collect_mono_requests", "generic_functions"), [NotBytecode]);
-    (("air/src/mono.rs", "collect_requests_from_instances", "generic_functions"), [NotBytecode]);
-    (("backend/src/compiler/expr/identifier_helpers.rs", "find_similar_globals", "globals"), [Diagnostics]);
-    (("backend/src/compiler/expr/identifier_helpers.rs", "generate_undefined_variable_hint", "globals"), [Diagnostics]);
-    (("backend/src/compiler/expr/typed/lambda.rs", "compile_typed_lambda_impl", "global_indices"), [KeyedMerge]);
-    (("backend/src/compiler/expr/typed/lambda_stmts.rs", "compile_typed_lambda_with_stmts", "global_indices"), [KeyedMerge]);
-    (("backend/src/compiler/functions/typed_finalize.rs", "finalize_typed_function", "global_indices"), [KeyedMerge]);
-    (("backend/src/compiler/functions/untyped_finalize.rs", "build_untyped_global_layout", "global_indices"), [Indexed]);
-    (("backend/src/compiler/functions/untyped_finalize.rs", "finalize_untyped_function", "global_indices"), [KeyedMerge]);
-    (("backend/src/compiler/lambda/finalize.rs", "finalize_lambda", "global_indices"), [Indexed; KeyedMerge]);
-    (("backend/src/compiler/liveness/last_use.rs", "compute_last_use_points", "uses"), [SetBuild]);
-    (("backend/src/compiler/pipeline.rs", "build_global_layout", "global_indices"), [Indexed]);
-    (("bytecode/src/asm/disasm.rs", "collect_jump_targets", "targets"), [Sorted; NotBytecode]);
-    (("bytecode/src/heap/merge.rs", "merge", "intern_table"), [KeyedMerge]);
-    (("cli/src/cli/commands/compile.rs", "build_native_bundles", "modules"), [Sorted]);
-    (("driver/src/modules/loader/compile.rs", "compile_module", "exports"), [SetBuild]);
-    (("driver/src/modules/loader/exports.rs", "register_exports", "exports"), [SetBuild]);
-    (("driver/src/modules/loader/load.rs", "load_module", "exports"), [SetBuild]);
-    (("driver/src/modules/loader/stdlib_loaded.rs", "load_loaded_std_module", "exports"), [SetBuild]);
-    (("driver/src/modules/needs.rs", "load_modules_for_program", "exports"), [SetBuild]);
-    (("driver/src/modules/needs.rs", "load_modules_with_loader", "exports"), [SetBuild]);
+  [ (("air/src/layout.rs", "detect_self_references", "structs#elem"), [NotBytecode]);
+    (("air/src/layout.rs", "topological_order", "deps#elem"), [NotBytecode]);
+    (("air/src/layout.rs", "topological_order", "structs#kv"), [NotBytecode]);
+    (("air/src/mono.rs", "collect_mono_requests", "generic_functions#keys"), [NotBytecode]);
+    (("air/src/mono.rs", "collect_requests_from_instances", "generic_functions#keys"), [NotBytecode]);
+    (("backend/src/compiler/expr/identifier_helpers.rs", "find_similar_globals", "globals#elem"), [Diagnostics]);
+    (("backend/src/compiler/expr/identifier_helpers.rs", "generate_undefined_variable_hint", "globals#elem"), [Diagnostics]);
+    (("backend/src/compiler/expr/typed/lambda.rs", "compile_typed_lambda_impl", "global_indices#kv"), [KeyedMerge]);
+    (("backend/src/compiler/expr/typed/lambda_stmts.rs", "compile_typed_lambda_with_stmts", "global_indices#kv"), [KeyedMerge]);
+    (("backend/src/compiler/functions/typed_finalize.rs", "finalize_typed_function", "global_indices#kv"), [KeyedMerge]);
+    (("backend/src/compiler/functions/untyped_finalize.rs", "build_untyped_global_layout", "global_indices#kv"), [Indexed]);
+    (("backend/src/compiler/functions/untyped_finalize.rs", "finalize_untyped_function", "global_indices#kv"), [KeyedMerge]);
+    (("backend/src/compiler/lambda/finalize.rs", "finalize_lambda", "global_indices#kv"), [Indexed; KeyedMerge]);
+    (("backend/src/compiler/liveness/last_use.rs", "compute_last_use_points", "uses#elem"), [SetBuild]);
+    (("backend/src/compiler/pipeline.rs", "build_global_layout", "global_indices#kv"), [Indexed]);
+    (("bytecode/src/asm/disasm.rs", "collect_jump_targets", "targets#iter"), [Sorted; NotBytecode]);
+    (("bytecode/src/heap/merge.rs", "merge", "intern_table#kv"), [KeyedMerge]);
+    (("cli/src/cli/commands/compile.rs", "build_native_bundles", "modules#iter"), [Sorted]);
+    (("driver/src/modules/loader/compile.rs", "compile_module", "exports#elem"), [SetBuild]);
+    (("driver/src/modules/loader/exports.rs", "register_exports", "exports#elem"), [SetBuild]);
+    (("driver/src/modules/loader/load.rs", "load_module", "exports#elem"), [SetBuild]);
+    (("driver/src/modules/loader/stdlib_loaded.rs", "load_loaded_std_module", "exports#elem"), [SetBuild]);
+    (("driver/src/modules/needs.rs", "load_modules_for_program", "exports#elem"), [SetBuild]);
+    (("driver/src/modules/needs.rs", "load_modules_with_loader", "exports#elem"), [SetBuild]);
     (* ModuleImports::include_auto_registered (7e2e5a8): HashSet fields extended by the VM's HashSets (set union), and
        HashMap::entry(symbol).or_insert_with over the keys of a HashMap (distinct keys; an existing key wins whatever the order) *)
-    (("driver/src/modules/loader/types.rs", "include_auto_registered", "repl_known_globals()"), [SetBuild]);
-    (("driver/src/modules/loader/types.rs", "include_auto_registered", "repl_module_aliases()"), [SetBuild]);
-    (("driver/src/modules/loader/types.rs", "include_auto_registered", "repl_known_native_globals()"), [SetBuild]);
-    (("driver/src/modules/loader/types.rs", "include_auto_registered", "repl_symbol_origins()"), [KeyedMerge]);
-    (("modules/src/native/loader.rs", "read_exports", "exports"), [NotHash]);
-    (("opt/src/passes/inline/analyze.rs", "analyze", "call_counts"), [PerEntryUpdate]);
-    (("opt/src/passes/inline/analyze.rs", "analyze", "functions"), [PerEntryUpdate]);
-    (("opt/src/passes/inline/analyze.rs", "find_cycles_dfs", "calls"), [Diagnostics]);
-    (("opt/src/passes/inline/analyze.rs", "find_mutual_recursion", "functions"), [Diagnostics]);
-    (("sema/src/env/closure.rs", "for_closure", "captures"), [SetBuild]);
-    (("sema/src/env/closure.rs", "for_closure", "scope"), [SetBuild]);
-    (("sema/src/env/free_vars.rs", "collect_vars", "captures"), [SetBuild]);
-    (("sema/src/env/free_vars.rs", "collect_vars", "scope"), [SetBuild]);
-    (("sema/src/infer/captures.rs", "collect_captures_from_stmts", "params"), [NotHash]);
-    (("sema/src/infer/entry.rs", "infer_program_full", "known_globals"), [SetBuild]);
-    (("sema/src/infer/entry.rs", "infer_program_full", "module_aliases"), [SetBuild]);
-    (("sema/src/unify/substitution.rs", "compose", "bindings"), [SetBuild; KeyedMerge]) ].
+    (("driver/src/modules/loader/types.rs", "include_auto_registered", "repl_known_globals()#iter"), [SetBuild]);
+    (("driver/src/modules/loader/types.rs", "include_auto_registered", "repl_module_aliases()#iter"), [SetBuild]);
+    (("driver/src/modules/loader/types.rs", "include_auto_registered", "repl_known_native_globals()#iter"), [SetBuild]);
+    (("driver/src/modules/loader/types.rs", "include_auto_registered", "repl_symbol_origins()#kv"), [KeyedMerge]);
+    (("modules/src/native/loader.rs", "read_exports", "exports#elem"), [NotHash]);
+    (("opt/src/passes/inline/analyze.rs", "analyze", "call_counts#kv"), [PerEntryUpdate]);
+    (("opt/src/passes/inline/analyze.rs", "analyze", "functions#kv"), [PerEntryUpdate]);
+    (("opt/src/passes/inline/analyze.rs", "find_cycles_dfs", "calls#elem"), [Diagnostics]);
+    (("opt/src/passes/inline/analyze.rs", "find_mutual_recursion", "functions#elem"), [Diagnostics]);
+    (("sema/src/env/closure.rs", "for_closure", "captures#kv"), [SetBuild]);
+    (("sema/src/env/closure.rs", "for_closure", "scope#kv"), [SetBuild]);
+    (("sema/src/env/free_vars.rs", "collect_vars", "captures#elem"), [SetBuild]);
+    (("sema/src/env/free_vars.rs", "collect_vars", "scope#elem"), [SetBuild]);
+    (("sema/src/infer/captures.rs", "collect_captures_from_stmts", "params#iter"), [NotHash]);
+    (("sema/src/infer/entry.rs", "infer_program_full", "known_globals#elem"), [SetBuild]);
+    (("sema/src/infer/entry.rs", "infer_program_full", "module_aliases#elem"), [SetBuild]);
+    (("sema/src/unify/substitution.rs", "compose", "bindings#kv"), [SetBuild; KeyedMerge]) ].
 
 (* a site is matched by file and table name; the enclosing function's name is kept for the reader only,
    so that renaming a private function is not an alarm.  What is counted: per (file, table) the translator
